@@ -306,7 +306,8 @@ Definition drain (s : st) : st :=
 Definition stream_io (s : st) : st :=
   let s1 := uv_write_queue s in
   let s2 := write_callbacks s1 in
-  match wq s2 with [] => drain s2 | _ => s2 end.
+  (* if (uv__queue_empty(&write_queue) && uv__queue_empty(&write_completed_queue)) uv__drain() *)
+  match wq s2, cq s2 with [], [] => drain s2 | _, _ => s2 end.
 
 (* uv__stream_flush_write_queue(stream, UV_ECANCELED) *)
 Definition flush (s : st) : st :=
